@@ -593,6 +593,7 @@ fn main() {
     let rep = Reporter::new("C19");
     if args.len() >= 3 && args[1] == "--replay" {
         std::env::set_var("IVK_NO_EVIDENCE", "1");
+        std::env::set_var("IVK_REPLAY_MODE", "1");
         let text = std::fs::read_to_string(&args[2]).unwrap_or_default();
         let doc: Value = serde_json::from_str(&text).unwrap_or(Value::Null);
         let case = &doc["case"];
